@@ -1,5 +1,5 @@
 (* C17 — IP wrapper frames by length; TCP transport returns whole APDUs for any chunking. *)
-From Dlms Require Import Base WrapperModel WrapperSpec WrapperProofs WrapperStream WrapperSound.
+From Dlms Require Import Base WrapperModel WrapperSpec WrapperProofs WrapperStream WrapperSound WrapperSoundN.
 
 (* the header is four big-endian 16-bit fields: version, source port, destination port, length *)
 Theorem C17_header_layout : forall src dst ln ver, src < 65536 -> dst < 65536 -> ln < 65536 -> ver < 65536 ->
@@ -115,6 +115,13 @@ Theorem C17_recv_sound : forall stream sched p rest sched',
                       len p < 65536 /\ src < 65536 /\ dst < 65536 /\ ver < 65536.
 Proof. exact tcp_recv_sound. Qed.
 
+(* ... and if k successive calls all return payloads, the stream consists of k standard messages carrying exactly those
+   payloads, in that order, followed by exactly what is left unread (any stream, any schedule) *)
+Theorem C17_recv_n_sound : forall k stream sched ps rest sched',
+  bytes_ok stream -> tcp_recv_n k (stream, sched) = (map Ok ps, (rest, sched')) -> length ps = k ->
+  exists ms, Forall wmsg_ok ms /\ map wmsg_payload ms = ps /\ stream = wstream ms ++ rest.
+Proof. exact tcp_recv_n_sound. Qed.
+
 Print Assumptions C17_recv_any_schedule.
 Print Assumptions C17_wrapper_roundtrip.
 Print Assumptions C17_recv_stream_any_schedule.
@@ -122,3 +129,4 @@ Print Assumptions C17_recv_stream_eof.
 Print Assumptions C17_session_any_schedule.
 Print Assumptions C17_recv_sound.
 Print Assumptions C17_wrapper_decode_sound.
+Print Assumptions C17_recv_n_sound.
